@@ -204,6 +204,65 @@ def build_compiler(defs=(GUARD,)):
     return exe
 
 
+RUNTIME_C = ["aldorlib.c", "btree.c", "compopt.c", "dword.c", "foam_c.c", "foam_cfp.c", "foamopt.c", "opsys.c",
+             "output.c", "stdc.c", "store.c", "table.c", "timer.c", "util.c", "xfloat.c", "bigint.c", "foam_i.c"]
+_runtime_cache = {}
+
+
+def build_runtime(defs=(GUARD,), regen_runtime_c=False):
+    """Build the C runtime library libfoam.a from /repo's CURRENT sources (the 17 files
+    the repository's Makefile.am lists, -DFOAM_RTS) plus runtime.c - the C generated
+    from lib/libfoam/al/runtime.as: the pre-built one of /repo by default, or
+    regenerated with the compiler built from the current tree (regen_runtime_c=True).
+    Returns the directory containing libfoam.a; pass it as the first -Y to aldor."""
+    key = (tuple(defs), regen_runtime_c)
+    if key in _runtime_cache:
+        return _runtime_cache[key]
+    lst = makefile_am_sources_at(RB + "/aldor/lib/libfoam/Makefile.am", "runtime_CSOURCES")
+    files = sorted(set(lst) | {"bigint.c", "foam_i.c"}) if lst else RUNTIME_C
+    d = scratch("rt")
+    objs = cc_objs(files, d + "/obj", ["-DFOAM_RTS"] + list(defs))
+    al = RB + "/aldor/lib/libfoam/al"
+    rc_src = al + "/runtime.c"
+    if regen_runtime_c:
+        exe = build_compiler(defs)
+        g = d + "/gen"
+        os.makedirs(g)
+        shutil.copy(al + "/runtime.as", g + "/runtime.as")
+        rc, out, err = run([exe, "-Nfile=%s/aldor/src/aldor.conf" % RB, "-Y" + al, "-I" + al, "-Q9", "-Wruntime",
+                            "-Fc=runtime.c", "runtime.as"], cwd=g, env=aldor_env(), timeout=300)
+        if rc == 0 and os.path.exists(g + "/runtime.c"):
+            rc_src = g + "/runtime.c"
+        else:
+            raise BuildError("regenerating runtime.c failed:\n" + (out + err)[-2000:])
+    objs += cc_objs([rc_src], d + "/obj", ["-DFOAM_RTS"] + list(defs))
+    rc, out, err = run(["ar", "rcs", d + "/libfoam.a"] + objs, timeout=120)
+    if rc != 0:
+        raise BuildError("ar failed: " + err[-500:])
+    _runtime_cache[key] = d
+    return d
+
+
+def makefile_am_sources_at(path, var):
+    try:
+        txt = open(path).read()
+    except OSError:
+        return []
+    m = re.search(r"^%s\s*=\s*((?:.*\\\n)*.*)$" % re.escape(var), txt, re.M)
+    if not m:
+        return []
+    return [w for w in m.group(1).replace("\\\n", " ").split() if w.endswith(".c")]
+
+
+def aldor_exe_args(exe, runtime_dir=None):
+    """Arguments to build a C executable: `... -fx=p.exe p.as` (DESIGN section 10)."""
+    a = aldor_base_args(exe)
+    if runtime_dir:
+        a.insert(1, "-Y" + runtime_dir)
+    return a + ["-Ccc=%s/aldor/subcmd/unitools/unicl" % RB, "-Y%s/aldor/lib/libfoam" % RB, "-laldor",
+                "-Cargs=-Wconfig=%s/aldor/src/aldor.conf -I%s" % (RB, eff_src()), "-fc"]
+
+
 def build_harness(name, harness_c, repo_files, defs=(GUARD,), extra_cflags=(), libs=("-lm",)):
     """Compile harness C file(s) (under /verif/harness) together with the named
     source files of /repo's current tree.  Returns executable path."""
